@@ -7,12 +7,13 @@ export GOFLAGS=-mod=mod GOPROXY=off GOSUMDB=off GOTOOLCHAIN=local
 cd $wt || exit 2
 demo=$(ls $out/*_test.go | head -1); pkgdir=$(dirname $(git -C $wt ls-files --others --exclude-standard | grep zz_seeded_demo_test.go | head -1))
 echo "== confirm in worktree ($pkgdir)"
+git checkout -q -- . && git apply $out/patch.diff || { echo "PATCH DOES NOT APPLY IN WORKTREE"; exit 1; }
 go build ./... || { echo "BUILD FAILS"; exit 1; }
 go test -vet=off -count=1 ./authenticode/... ./efi/... ./efivarfs/... ./pkcs7/... 2>&1 | grep -v "no test files" | grep -v "^ok" | grep -v zz_seeded | head -5
 go test -vet=off -count=1 -run 'TestSeeded' ./$pkgdir 2>&1 | tail -3 | sed 's/^/  with change: /'
-git stash -q -- $(git diff --name-only) 
+git apply -R $out/patch.diff
 go test -vet=off -count=1 -run 'TestSeeded' ./$pkgdir 2>&1 | tail -1 | sed 's/^/  without change: /'
-git stash pop -q
+git apply $out/patch.diff
 echo "== run check $id ($tier) on /repo with the change"
 cd /repo && git apply $out/patch.diff || { echo "PATCH DOES NOT APPLY"; exit 1; }
 cd /verif && bin/vcheck $id --tier $tier 2>&1 | grep -E "VIOLATION|  harness=|OK property|VACUOUS|MISMATCH|ENGINE|KNOWN" | head -8
